@@ -293,38 +293,25 @@ class IndexedCache:
         n_keys = len(keys)
         key = keys[key_idx]
 
-        # Follow the concrete chain as far as it exists without exceptions
-        while key in assignment:
-            next_cache = cache.get(assignment[key])
-            if next_cache is None:
-                # Try wildcard branch at this level
-                wildcard = cache.get(All)
-                if wildcard is not None:
-                    yield from self._yield_result(assignment, wildcard, key_idx, result)
+        if key in assignment:
+            # a bound key matches the entries stored under its value and the entries stored under the wildcard
+            branches = [(assignment[key], result), (All, result)]
+        else:
+            # an unbound key matches every entry; the entries stored under a value bind it in the result
+            branches = []
+            for cache_key in cache.keys():
+                if cache_key is All:
+                    branches.append((cache_key, result))
                 else:
-                    self.search_count += 1
-                return
-            cache = next_cache
-            if key_idx + 1 < n_keys:
-                key_idx += 1
-                key = keys[key_idx]
-            else:
-                break
-
-        if key not in assignment:
-            # Prefer wildcard branch if available
-            wildcard = cache.get(All)
-            if wildcard is not None:
-                yield from self._yield_result(assignment, wildcard, key_idx, result)
-            else:
-                # Explore all branches at this level, copying only the minimal delta
-                for cache_key, cache_val in cache.items():
                     local_result = copy(result)
                     local_result[key] = cache_key
-                    yield from self._yield_result(assignment, cache_val, key_idx, local_result)
-        else:
-            # Reached the leaf (value or next dict) specifically specified by assignment
-            yield result, cache
+                    branches.append((cache_key, local_result))
+        for cache_key, branch_result in branches:
+            cache_val = cache.get(cache_key)
+            if cache_val is None:
+                self.search_count += 1
+                continue
+            yield from self._yield_result(assignment, cache_val, key_idx, branch_result)
 
     def clear(self):
         self.cache.clear()
